@@ -317,7 +317,7 @@ impl Run {
                 println!("{}", line);
             }
         }
-        let Some(s) = summary else {
+        let Some(full) = summary else {
             eprintln!(
                 "MACHINERY: child {} ({}) ended without a summary (status {:?}); stderr: {}",
                 exe,
@@ -327,6 +327,7 @@ impl Run {
             );
             std::process::exit(3);
         };
+        let s = full.clone();
         self.eval(s["evaluations"].as_u64().unwrap_or(0));
         self.nontrivial(s["distinct_nontrivial"].as_u64().unwrap_or(0));
         self.add_states(s["states"].as_u64().unwrap_or(0));
@@ -348,11 +349,16 @@ impl Run {
                 self.cap_hit(&format!("{}: {}", label, x.as_str().unwrap_or("")));
             }
         }
+        // keep the evidence readable: large arrays in a child's extras are not copied
+        let mut s = s;
+        if let Some(ex) = s["extras"].as_object_mut() {
+            ex.retain(|_, v| v.as_array().map(|a| a.len() <= 50).unwrap_or(true));
+        }
         self.set(&format!("child_{}", label), json!({
             "evaluations": s["evaluations"], "distinct_nontrivial": s["distinct_nontrivial"],
             "violations": s["violations"], "extras": s["extras"], "wall_s": s["wall_s"], "samples": s["samples"],
         }));
-        s
+        full
     }
 
     /// Write the evidence file, print KNOWN-FINDING lines and exit (0 held / 1 violation).
